@@ -312,6 +312,23 @@ func runBuild(toks []string) (string, string) {
 	if berr != nil {
 		return fmt.Sprintf("err:%s;f=%s", classify(berr), kinds(v)), "OK"
 	}
+	// a second record of the same shape with other content, built after the first and alive while
+	// the first is looked at: records do not share what they hold
+	if (len(content)+nf+nfeeds)%2 == 0 {
+		var other [][2]string
+		for _, f := range feeds {
+			other = append(other, [2]string{f[0], strings.Map(func(c rune) rune {
+				if c >= 'a' && c <= 'y' {
+					return c + 1
+				}
+				return c
+			}, f[1])})
+		}
+		if decoy, _, _ := buildRecord(o, rt, fields, other, dir); decoy != nil {
+			readBlock(decoy)
+			defer decoy.Close()
+		}
+	}
 	obs := "ok;" + showRecord(rec, v)
 	// ---- C02: what the builder ADDED must be truthful ----
 	blk, _ := readBlock(rec) // second read: the builder's blocks are cached
